@@ -668,7 +668,11 @@ impl Ctx {
         });
         let dir = Path::new(VERIF_DIR).join("evidence");
         let _ = std::fs::create_dir_all(&dir);
-        let path = dir.join(format!("{}.json", self.id));
+        // a partial run (e.g. the `tracing` feature build of C01) writes elsewhere and is merged by the main run
+        let path = match std::env::var("VERIF_PART_FILE") {
+            Ok(p) if !p.is_empty() => PathBuf::from(p),
+            _ => dir.join(format!("{}.json", self.id)),
+        };
         std::fs::write(&path, serde_json::to_vec_pretty(&ev).unwrap()).expect("write evidence");
         println!(
             "{} {}: evaluations={} distinct_nontrivial={} known_hits={} excluded={} violations={} wall={:.1}s",
